@@ -21,7 +21,18 @@ def cfg(tier):
 
 
 def tasks(tier, seed):
-    return [{'part': k} for k in range(K)] + [{'part': 'split', 'k': k} for k in range(8)]
+    return [{'part': k} for k in range(K)] + [{'part': 'split', 'k': k} for k in range(8)] + [{'part': 'vb', 'k': k} for k in range(8)]
+
+
+def vb_pools(tier, seed):
+    """Both operands from small pools over a verbatim two-group setting and a colour that conflicts with one of its groups:
+    the seam merge has to get precedence right for settings that touch more than their first code says."""
+    d = 2
+    ta = {'L': 2, 'layout': 'plain', 'roles': 'YB', 'depth': d, 'struct': False, 'part': 0, 'parts': 1}
+    A = explore.std_pool(ta, seed).items
+    gen = explore.std_gen(ta, seed)
+    B = explore.bfs([[['plain', explore.letters(seed + 7, 2)]]], gen, d).items
+    return A, B
 
 
 def pools(tier, seed):
@@ -219,6 +230,18 @@ def run_task(task, acc):
             acc.evaluations += 1
             for clause, case, detail in check_split(h, v, acc):
                 acc.violation(clause, case, detail, sig=clause)
+        return
+    if task['part'] == 'vb':
+        A2, B2 = vb_pools(tier, acc.seed)
+        for ia, (ha, a) in enumerate(A2):
+            if ia % 8 != task['k']:
+                continue
+            acc.state(model.canon_hash(a))
+            for (hb, b) in B2:
+                acc.evaluations += 1
+                acc.current = {'a': ha, 'b': hb}
+                for clause, case, detail in check_pair(ha, hb, build(ha), build(hb), acc, extra=False):
+                    acc.violation(clause, case, detail, sig=clause + ':' + case['form'] + ':vb')
         return
     strs = [(['lit', ''], ''), (['lit', 'xy'], 'xy')]
     B = [list(x) for x in B]
